@@ -14,6 +14,16 @@ CLAIMED = {
              'cycles are validated row by row by TLC against the same operators.',
         design='4/C01',
         technique='TLA+ spec + TLC enumeration, replay into glom, TLC validation of recorded executions'),
+    'C02': dict(
+        text='TLC explores a machine that grows T expressions one recorded operation at a time over a fixed target heap '
+             '(every successful prefix x every operation of the alphabet: attribute, item, slice, call with literal / nested-T / '
+             'Spec / container arguments, the ten binary and two unary arithmetic operators), checking four laws on the model '
+             '(first failure surfaces, index in range, purity, compositionality); every state is replayed into glom and compared '
+             'on value (identity-preserving canonical form) or PathAccessError position and carried class; a plain-Python '
+             'interpreter of the same operations cross-checks the model; seeded random longer expressions recorded from glom are '
+             'validated by TLC with the same operators.',
+        design='4/C02',
+        technique='TLA+ spec (GlomT) + TLC prefix-extension machine, replay into glom, TLC validation of recorded executions'),
 }
 
 PENDING_REASON = 'check not built yet (planned: see DESIGN.md section 4); not claimed until both binding directions exist'
